@@ -789,12 +789,20 @@ package larking
 //@      || (len(v) >= 2 && v[len(v)-2] == 47 && v[len(v)-1] == 42 && len(o) >= len(v) - 1 && (forall j :: 0 <= j && j < len(v) - 1 ==> o[j] == v[j]))
 //@ spec Chosen(best, dflt, specs, q) = (same(best, dflt) && q < 0)
 //@      || (q > 0 && (exists k :: off(specs) <= k && k < off(specs) + len(specs) && at(specs, k).Q > 0 && Admits(at(specs, k).Value, best)))
+// ... and whenever some offer is admitted by a range with a positive weight, the
+// default is not what comes back (Served: every offer/range pair seen so far).
+//@ spec Served(specs, offers, upto, q) = forall a, k :: {at(offers, a), at(specs, k).Q} off(offers) <= a && a <= off(offers) + upto && a < off(offers) + len(offers) && off(specs) <= k && k < off(specs) + len(specs)
+//@        && at(specs, k).Q > 0 && Admits(at(specs, k).Value, at(offers, a)) ==> q > 0
 //@ func negotiateContentType serves C04 C05 C09
 //@   modifies E$acceptSpec
 //@   ensures [one-of-the-offers C04] same(result, defaultOffer) || OneOf(result, offers, len(offers))
 //@   ensures [admitted-by-the-accept-header C04] at "return bestOffer" Chosen(bestOffer, defaultOffer, specs, bestQ)
 //@   loop 1 invariant QsOK(specs) && Chosen(bestOffer, defaultOffer, specs, bestQ)
 //@   loop 2 invariant QsOK(specs) && Chosen(bestOffer, defaultOffer, specs, bestQ)
+//@   ensures [a-satisfiable-accept-header-is-honoured C04] at "return bestOffer" Served(specs, offers, len(offers), bestQ)
+//@   loop 1 invariant Served(specs, offers, rangeindex, bestQ)
+//@   loop 2 invariant Served(specs, offers, rangeindex - 1, bestQ)
+//@   loop 2 invariant forall k :: {at(specs, k).Q} off(specs) <= k && k <= off(specs) + rangeindex#2 && at(specs, k).Q > 0 && Admits(at(specs, k).Value, offer) ==> bestQ > 0
 //@   loop 1 invariant -1 <= rangeindex && rangeindex < len(offers) && (same(bestOffer, defaultOffer) || OneOf(bestOffer, offers, rangeindex))
 //@   loop 1 decreases len(offers) - rangeindex
 //@   loop 2 invariant -1 <= rangeindex#2 && rangeindex#2 < len(specs) && 0 <= rangeindex && rangeindex < len(offers)
